@@ -128,6 +128,7 @@ inductive Form where
   | anyDirName (n : Name)       -- `**/n/`
   | ext (e : Name)              -- `*e`   (e = ".pyc", …)
   | exact (p : Path)            -- `a/b.py`
+  | globDir (anyDepth : Bool) (g : Name)   -- `*.egg-info/`, `**/*_generated/` : glob on a directory name
   deriving Repr
 
 def Form.render : Form → List Char
@@ -135,6 +136,7 @@ def Form.render : Form → List Char
   | .anyDirName n => '*' :: '*' :: '/' :: n ++ ['/']
   | .ext e => '*' :: e
   | .exact p => joinPath p
+  | .globDir a g => (if a then ['*', '*', '/'] else []) ++ (g ++ ['/'])
 
 /-- gitignore reading of the documented forms -/
 def Form.specMatch (p : Path) : Form → Bool
@@ -144,6 +146,7 @@ def Form.specMatch (p : Path) : Form → Bool
       | some b => e.isSuffixOf b
       | none => false
   | .exact q => p == q
+  | .globDir _ g => (dirParts p).any (fun part => glob g part)
 
 /-- well-formed documented pattern: literal name / extension without `/` -/
 def Form.wf : Form → Bool
@@ -151,6 +154,7 @@ def Form.wf : Form → Bool
   | .anyDirName n => literal n && !n.contains '/' && !n.isEmpty
   | .ext e => literal e && !e.contains '/'
   | .exact q => literal (joinPath q) && q.all (fun c => !c.contains '/' && !c.isEmpty) && !q.isEmpty
+  | .globDir _ g => !g.contains '/' && !g.isEmpty && !g.contains '['
 
 /-- excluded by the always-excluded names: inside such a directory (below the target), or a compiled suffix -/
 def specExcluded (p : Path) : Bool :=
